@@ -376,6 +376,14 @@ def gen_cases(rng, tier):
         g["labeltype"] = lt
         g["datasets"][0]["labeltype"] = lt
         add("typedcsv", "hdd" if i < 4 or i % 2 else "ram", g, [_run(True, None, on_train=True)])
+    # 9. regression with an INTEGER-typed target and a regressor predicting non-integer floats, on
+    #    disk and in memory: the stored predictions are the predicted floats, bit for bit, whatever
+    #    the type of the true values (seed C19-f)
+    for i in range(10 if not thorough else 50):
+        g = _grid(rng, 1, 1, rng.choice([("kfold", 2), ("single", 2)]), task="tsr", n_lo=6, n_hi=9)
+        g["scale"] = [rng.choice([7, 3, 10, 49]), rng.choice([0, 0, -2, 3])]
+        g["datasets"][0]["int_target"] = True
+        add("floatcsv", "hdd" if i % 2 == 0 else "ram", g, [_run(True, None, on_train=True)])
     # 8. datasets whose integer index is a permutation of 0..n-1 (or has other labels): everything
     #    the orchestrator does with a fold goes by position; a true value looked up by LABEL would be
     #    another instance's (seed C19-e)
@@ -415,6 +423,8 @@ def _build_data(ds, task):
         data["target"] = [float(v) for v in ds["ys"]] if lt == "f32" else [_lab(v, lt) for v in ds["ys"]]
     elif ds.get("yscale"):                           # kind 'floatcsv': fractional true values too
         data["target"] = [_fl(v, ds["yscale"]) for v in ds["ys"]]
+    elif ds.get("int_target"):                       # kind 'floatcsv': a regression target of INTEGER type
+        data["target"] = np.array([int(v) for v in ds["ys"]], dtype=np.int64)
     else:
         data["target"] = [float(v) for v in ds["ys"]] if task == "tsr" else [int(v) for v in ds["ys"]]
     if ds.get("labels") is not None:
